@@ -53,6 +53,13 @@ def run(tier, seed):
             behaviours += pipelib.to_behaviours(len(behaviours), x, relational=False)
             if (not x["ok"]) or any(a["data"] != x["data"] for a in x["apps"]):
                 nontrivial.add(x["def"])
+    # ---- the same structures with a built-in whose parameter the context also supplies as a global
+    # (cart / ellps for t_add / c; the model is run with the global c = 1, i.e. ellps = GRS80)
+    for cfg in (["MC_C04_qg"] if tier == "quick" else ["MC_C04_tg"]):
+        r = vlib.tlc_must_pass(vlib.tlc("MC_C04", cfg, workers=8 if tier == "quick" else 14, timeout=3400, xmx="12g"))
+        res.add_tlc(r)
+        for x in r["records"].get("REPLAY", []):
+            behaviours.append(pipelib.ellps_behaviour(len(behaviours), x))
     # ---- termination: every resource graph over three names (all cycles), long chains and long cycles
     gb = []
     for cfg, wanted in (("MC_C04_guard", True), ("MC_C04_chains", True)):
